@@ -42,7 +42,7 @@ def generate(rng, tier, index):
     thorough = tier == "thorough"
     fam = rng.choice(["default", "default", "multitask"])
     recipe = zoo.gen_exact_recipe(rng, [fam])
-    recipe["lik"] = "gaussian"
+    recipe["lik"] = "gaussian" if (fam != "default" or rng.random() < 0.75) else rng.choice(["fixed", "fixed_learn"])
     recipe.pop("active_dims", None)
     if fam == "default":
         recipe["batch"] = rng.choice([[], [], [2]])
